@@ -14,3 +14,23 @@ Fixpoint nodup_b (l : list str) : bool :=
 
 Lemma types_distinct : nodup_b all_types = true /\ str_in [] all_types = false.
 Proof. split; vm_compute; reflexivity. Qed.
+
+(* T tie: the character classes and loop conditions regenerated from the Go expressions are the
+   documented ones, for EVERY rune. *)
+From Coq Require Import Lia ZifyBool ZifyN.
+From Falco Require Import Gen.LexClasses.
+
+Lemma char_classes_documented : forall r : rune,
+  is_letter r = ref_letter r /\ is_decimal r = ref_decimal r /\ is_digit r = ref_digit r /\
+  is_hex r = ref_hex r /\ is_delim r = ref_delim r /\ is_space r = ref_space r /\
+  in_string r = ref_in_string r /\ is_ident_cont r = ref_ident_cont r.
+Proof.
+  intros r.
+  unfold is_letter, is_decimal, is_digit, is_hex, is_delim, is_space, in_string, is_ident_cont,
+    g_isLetter, g_isDecimalDigit, g_isDigit, g_isHexDigit, g_isLongStringDelimiter,
+    g_skipWhitespace_cond, g_readString_cond, g_identTail_cond,
+    g_isLetter, g_isDigit, g_isDecimalDigit,
+    ref_letter, ref_decimal, ref_digit, ref_hex, ref_delim, ref_space, ref_in_string, ref_ident_cont,
+    ref_letter, ref_decimal, in_rng.
+  repeat split; lia.
+Qed.
